@@ -6,7 +6,7 @@ def line_jobs(d, tier, cfgs=(("ndebug", ["NDEBUG"]),)):
     js = []
     for cname, cdefs in cfgs:
         sfx = "_%s_%s" % (DIALECT_NAMES[d], cname)
-        defs = ["DIALECT=%d" % d, "VERIF_FILE_MAX=16"] + cdefs
+        defs = ["DIALECT=%d" % d] + cdefs
         js.append(Job("L2_print_target" + sfx, "harness/basic_lines.c", "h_print_target",
                       enforce=["print_target_line_number"], defines=defs, includes=INC, tier=tier,
                       sentinel=None, cover=True))
@@ -20,11 +20,16 @@ def line_jobs(d, tier, cfgs=(("ndebug", ["NDEBUG"]),)):
                       enforce=["decode_line"], replace=["handle_token", "count"], loops=True,
                       defines=defs, includes=INC, tier=tier,
                       cbmc=["--unwindset", "h_fill_counts.0:257", "--unwinding-assertions"]))
+        be = d in (0, 2, 4, 5)
+        js.append(Job("L3_framing" + sfx, "harness/basic_lines.c", "h_decode_be" if be else "h_decode_le",
+                      enforce=["decode_big_endian_program" if be else "decode_little_endian_program"],
+                      replace=["decode_line"], loops=True, defines=defs + ["VERIF_NO_LINE_LEVEL"], includes=INC, tier=tier, cover=True,
+                      local_frame_ok=[("decode_little_endian_program", "ch")]))
     return js
 
 def jobs(tier):
     js = []
-    for d in (0,):
+    for d in (0, 1):
         js += line_jobs(d, "quick")
     return js
 
